@@ -16,6 +16,115 @@ fn q(v: f64) -> Option<i64> {
     }
 }
 
+/// bring a rendering made at scale `sc` back to the default scale (every length must have been multiplied by
+/// sc/8); coordinates within 5e-4 of the quarter lattice are snapped onto it (f32 printing noise)
+fn to_default_scale(d: &mut Doc, sc: f64) {
+    if sc == 8.0 {
+        return;
+    }
+    let k = 8.0 / sc;
+    let snap = |v: &mut f64| {
+        let x = *v * 4.0;
+        if (x - x.round()).abs() < 2e-3 {
+            *v = x.round() / 4.0
+        }
+    };
+    d.elems = d.elems.iter().map(|e| e.scaled(k)).collect();
+    for e in d.elems.iter_mut() {
+        e.xs.iter_mut().for_each(snap);
+        e.ys.iter_mut().for_each(snap);
+    }
+}
+
+/// (selector's last class, declarations) of every rule of the style sheet
+fn css_rules(style: &str) -> Vec<(String, String)> {
+    let mut v = vec![];
+    for block in style.split('}') {
+        if let Some((sel, body)) = block.split_once('{') {
+            for one in sel.split(',') {
+                let last = one.trim().rsplit(|c: char| c == ' ' || c == '.').next().unwrap_or("").to_string();
+                v.push((last, body.split_whitespace().collect::<Vec<_>>().join(" ")));
+            }
+        }
+    }
+    v
+}
+
+fn check_marker_resolution(cx: &mut Cx, raw: &str) {
+    use crate::xmlmini::{Child, Element};
+    let doc = match cx.xml_parse(raw) {
+        Ok(d) => d,
+        Err(e) => {
+            cx.fail("unparseable", format!("{:?}", e));
+            return;
+        }
+    };
+    fn kids<'a>(e: &'a Element, name: &str) -> Vec<&'a Element> {
+        e.children.iter().filter_map(|c| if let Child::Elem(x) = c { if x.name == name { Some(x) } else { None } } else { None }).collect()
+    }
+    let attr = |e: &Element, n: &str| e.attrs.iter().find(|a| a.0 == n).map(|a| a.1.clone());
+    let style: String = kids(&doc.root, "style").iter().flat_map(|s| s.children.iter()).filter_map(|c| if let Child::Text(t) = c { Some(t.clone()) } else { None }).collect();
+    let rules = css_rules(&style);
+    let markers: Vec<&Element> = kids(&doc.root, "defs").iter().flat_map(|d| kids(d, "marker")).collect();
+    let mut radius: std::collections::BTreeMap<String, f64> = Default::default();
+    for kind in ["circle", "open_circle", "big_open_circle", "arrow", "diamond"] {
+        for (end, prop) in [("end", "marker-end"), ("start", "marker-start")] {
+            let cls = format!("{}_marked_{}", end, kind);
+            let body = match rules.iter().find(|r| r.0 == cls) {
+                Some(r) => r.1.clone(),
+                None => {
+                    cx.fail("marker-rule", format!("the style sheet has no rule for class {}", cls));
+                    return;
+                }
+            };
+            let want = format!("{}: url(#", prop);
+            let id = match body.find(&want) {
+                Some(p) => body[p + want.len()..].split(')').next().unwrap_or("").to_string(),
+                None => {
+                    cx.fail("marker-rule", format!("the rule of class {} does not set {}: {:?}", cls, prop, body));
+                    return;
+                }
+            };
+            let m = match markers.iter().find(|m| attr(m, "id").as_deref() == Some(id.as_str())) {
+                Some(m) => *m,
+                None => {
+                    cx.fail("marker-rule", format!("class {} refers to marker #{} which is not defined", cls, id));
+                    return;
+                }
+            };
+            let circles = kids(m, "circle");
+            let polys = kids(m, "polygon");
+            let ok = match kind {
+                "arrow" | "diamond" => polys.len() == 1 && circles.is_empty(),
+                _ => {
+                    if circles.len() != 1 || !polys.is_empty() {
+                        false
+                    } else {
+                        let c = circles[0];
+                        let cls_c = attr(c, "class").unwrap_or_default();
+                        let filled = cls_c.split_whitespace().any(|t| t == "filled");
+                        let r: f64 = attr(c, "r").and_then(|v| v.parse().ok()).unwrap_or(-1.0);
+                        radius.insert(format!("{}:{}", end, kind), r);
+                        r > 0.0 && (kind == "circle") == filled
+                    }
+                }
+            };
+            if !ok {
+                cx.fail("marker-kind", format!("class {} resolves to marker #{} which is not a {} marker (filled disc for *, open for o and O, a polygon for arrows)", cls, id, kind));
+                return;
+            }
+        }
+    }
+    for end in ["end", "start"] {
+        let (o, b) = (radius.get(&format!("{}:open_circle", end)).copied().unwrap_or(0.0), radius.get(&format!("{}:big_open_circle", end)).copied().unwrap_or(0.0));
+        if !(b > o) {
+            cx.fail("marker-kind", format!("the {} marker of the big open bullet 'O' (r={}) is not bigger than that of 'o' (r={})", end, b, o));
+            return;
+        }
+    }
+    cx.outcome(&"markers-resolved");
+}
+
 fn heads_for(d: u8) -> Vec<char> {
     match d {
         0 => vec!['>', '▶', '►', '▸'],
@@ -301,6 +410,33 @@ impl Prop for C14 {
                     }
                 }
             }),
+            Scope::new("markers", "with the style sheet and marker definitions on (default settings, three entry points): every start_/end_marked_ class resolves through its CSS rule (marker-start / marker-end) to a defined marker of the documented kind: filled disc for *, open disc for o, bigger open disc for O, polygons for arrow and diamond", |f| {
+                for i in 0..4 {
+                    for e in 0..3 {
+                        f(Case::sn("markers", vec![i, e]));
+                    }
+                }
+            }),
+            Scope::new("scaled", "arrows (direction x head glyph x line character x length 1,2,5) and bullets (kind x direction x {end, mid-line} x length 1,3) at scales 1, 2.5, 3, 5, 7, 10, 20: the same oracles after dividing every length by scale/8", |f| {
+                for sc in [100i64, 250, 300, 500, 700, 1000, 2000] {
+                    for d in 0..8u8 {
+                        for (hi, _) in heads_for(d).iter().enumerate() {
+                            for (li, _) in line_chars_for(d).iter().enumerate() {
+                                for l in [1i64, 2, 5] {
+                                    f(Case::sn("arrow", vec![d as i64, hi as i64, li as i64, l, 1, 1, 0, sc]));
+                                }
+                            }
+                        }
+                        for b in 0..3 {
+                            for mid in 0..2 {
+                                for l in [1i64, 3] {
+                                    f(Case::sn("bullet", vec![b, d as i64, mid, l, 1, 1, sc]));
+                                }
+                            }
+                        }
+                    }
+                }
+            }),
             Scope::new("bullets", "bullet x direction x {end, mid-line} x length x offset", move |f| {
                 for b in 0..3 {
                     for d in 0..8u8 {
@@ -335,6 +471,15 @@ impl Prop for C14 {
     fn check(&self, _scope: &str, case: &Case, cx: &mut Cx) {
         let n = &case.n;
         match case.s.as_str() {
+            "markers" => {
+                let inputs = ["O--  o--  *--", "--O  --o  --*\n\n-->  <--", "|\nO\n|", ""];
+                let raw = match cx.conv_entry(inputs[n[0] as usize], &Sett::default_(), [crate::conv::Entry::ToSvg, crate::conv::Entry::WithSettings, crate::conv::Entry::Pretty][n[1] as usize]) {
+                    Some(o) => o,
+                    None => return,
+                };
+                cx.compared();
+                check_marker_resolution(cx, &raw);
+            }
             "arrow" => {
                 let d = n[0] as u8;
                 let head = heads_for(d)[n[1] as usize];
@@ -357,13 +502,15 @@ impl Prop for C14 {
                     }
                 }
                 let drawing = cv.render_at(n[4] as i32, n[5] as i32);
-                let doc = match cx.conv_doc(&drawing, &Sett::bare()) {
+                let sc = n.get(7).map(|v| *v as f64 / 100.0).unwrap_or(8.0);
+                let mut doc = match cx.conv_doc(&drawing, &Sett::bare_scale(sc as f32)) {
                     Some(x) => x,
                     None => return,
                 };
+                to_default_scale(&mut doc, sc);
                 cx.compared();
                 let nv = cx.viols.len();
-                let desc = format!("arrow {:?} after {} x {:?} in direction {} at ({},{})\n{}", head, len, lc, d, n[4], n[5], drawing);
+                let desc = format!("arrow {:?} after {} x {:?} in direction {} at ({},{}) scale {}\n{}", head, len, lc, d, n[4], n[5], sc, drawing);
                 if target > 0 {
                     // the bar adds lines: only demand the filled triangle, not shown as text, tip on the axis of the arriving line
                     let polys = doc.count(Kind::Polygon);
@@ -397,13 +544,15 @@ impl Prop for C14 {
                 let miny = cells.iter().map(|c| c.1).min().unwrap();
                 let bc = (dx * len as i32 - minx + n[4] as i32, dy * len as i32 - miny + n[5] as i32);
                 let drawing = cv.render_at(n[4] as i32, n[5] as i32);
-                let doc = match cx.conv_doc(&drawing, &Sett::bare()) {
+                let sc = n.get(6).map(|v| *v as f64 / 100.0).unwrap_or(8.0);
+                let mut doc = match cx.conv_doc(&drawing, &Sett::bare_scale(sc as f32)) {
                     Some(x) => x,
                     None => return,
                 };
+                to_default_scale(&mut doc, sc);
                 cx.compared();
                 let nv = cx.viols.len();
-                let desc = format!("bullet {:?} {} a line of {} x {:?} in direction {} at ({},{})\n{}", b, if mid { "in the middle of" } else { "at the end of" }, len, lc, d, n[4], n[5], drawing);
+                let desc = format!("bullet {:?} {} a line of {} x {:?} in direction {} at ({},{}) scale {}\n{}", b, if mid { "in the middle of" } else { "at the end of" }, len, lc, d, n[4], n[5], sc, drawing);
                 check_bullet(cx, &desc, &doc, b, bc);
                 if cx.viols.len() == nv {
                     cx.outcome(&("bullet", b, d, mid));
